@@ -540,7 +540,7 @@ def run_check(pid, tier, seed, replay=None):
             coverage=dict(
                 obligations=max(lean["obligations"], 1) if lean["obligations"] else 0,
                 discharged=lean["discharged"],
-                checker_cmd=f"cd lean && lake build Props.{pid} && lake env lean Audit/{pid}.lean" + (" && lake env leanchecker Props." + pid if tier == "thorough" else ""),
+                checker_cmd="harness/cmd/extract -repo /repo (regenerates lean/Generated/*.lean) && cd lean && lake build " + " ".join(["Props." + pid] + PROPS[pid].get("extra_targets", [])) + " && lake env lean Audit/" + pid + ".lean Audit/" + pid + "_*.lean" + (" && lake env leanchecker Props." + pid if tier == "thorough" else ""),
                 trusted_base=cfg.get("trusted_base") or [],
                 axioms=lean["axioms"],
                 leanchecker=lean.get("leanchecker"),
